@@ -53,6 +53,11 @@ Proof. intros; repeat split. Qed.
 Lemma gen_key_bits_is_64 : gen_key_bits = 64.
 Proof. reflexivity. Qed.
 
+(* each option of restrict guards its own kind of tags *)
+Lemma gen_restrict_guards : forall sb ss,
+  gen_restrict_keeps_subdomains sb ss = negb ss /\ gen_restrict_keeps_boundaries sb ss = negb sb.
+Proof. intros; split; reflexivity. Qed.
+
 (* ---- quadrilateral -> 2 triangles: the children's signed areas add up to the parent's, for EVERY quadrilateral *)
 Lemma quad_split_area : forall v0 v1 v2 v3 : pt2,
   let P := [v0; v1; v2; v3] in
